@@ -27,6 +27,8 @@ The property predicate uses plain Python `fractions` / NumPy oracles that do not
 """
 from fractions import Fraction
 
+from . import c18_hist as hist_mod
+
 LEVEL = "proof"
 MANIFEST_ENTRY = {
     "category": "proof",
@@ -60,7 +62,7 @@ def guarded(ctx, fn, case, *args, **kw):
     import traceback
     try:
         fn(*args, **kw)
-    except HarnessError:
+    except (HarnessError, hist_mod.HarnessError):
         raise
     except Exception as e:  # noqa
         tb = traceback.extract_tb(e.__traceback__)
@@ -772,12 +774,23 @@ def gen_shift(rng):
     h, w = rng.randint(2, 8), rng.randint(2, 8)
     if h == w and rng.chance(0.7):
         w = w + 1
+    if rng.chance(0.12):                       # a detector axis of length 1 (line detector): the roll along it is the identity
+        if rng.chance(0.5):
+            h = 1
+        else:
+            w = 1
     data = [[[rng.randint(1, 200) for _ in range(w)] for _ in range(h)] for _ in range(sr * sc)]
-    origins = [[rng.randint(-h - 1, 2 * h), rng.randint(-w - 1, 2 * w)] for _ in range(sr * sc)]
+    # integer origins (the clause of the property) or, for the model tie only, origins in quarter pixels (exact in float32)
+    sub = rng.chance(0.2)
+    q = 4 if sub else 1
+    origins = [[rng.randint(q * (-h - 1), q * 2 * h) / q, rng.randint(q * (-w - 1), q * 2 * w) / q] for _ in range(sr * sc)]
+    if not sub:
+        origins = [[int(a), int(b)] for a, b in origins]
     if rng.chance(0.3):
         origins = [origins[0]] * (sr * sc)
     coord = rng.weighted([([0, 0], 4), ([h // 2, w // 2], 2), ([rng.randint(0, h - 1), rng.randint(0, w - 1)], 1)])
-    return {"sr": sr, "sc": sc, "h": h, "w": w, "data": data, "origins": origins, "coord": coord}
+    mode = "bilinear" if sub else rng.weighted([("bilinear", 5), ("nearest", 1), ("bicubic", 1)])
+    return {"sr": sr, "sc": sc, "h": h, "w": w, "data": data, "origins": origins, "coord": coord, "mode": mode, "sub": sub}
 
 
 def shift_case(ctx, drv, sh, batch_sizes=None):
@@ -793,7 +806,11 @@ def shift_case(ctx, drv, sh, batch_sizes=None):
     om.origin_fitted = of.reshape(sr, sc, 2) if grid_route else of       # the fitted origins as an (sr, sc, 2) scan grid or an (n, 2) list
     ctx.dist[f"shift:origin_fitted={'grid' if grid_route else 'flat'}"] += 1
     cy, cx = sh["coord"]
-    want = np.stack([np.roll(arr.reshape(n, h, w)[i], (-(sh["origins"][i][0] - cy), -(sh["origins"][i][1] - cx)), axis=(0, 1)) for i in range(n)])
+    sub, mode = bool(sh.get("sub")), sh.get("mode", "bilinear")
+    want = None if sub else np.stack([np.roll(arr.reshape(n, h, w)[i], (-(sh["origins"][i][0] - cy), -(sh["origins"][i][1] - cx)), axis=(0, 1)) for i in range(n)])
+    ctx.dist[f"shift:origins={'quarter-pixel (model tie only)' if sub else 'integer'}"] += 1
+    ctx.dist[f"shift:mode={mode}"] += 1
+    ctx.dist["shift:detector=" + ("axis of length 1" if min(h, w) == 1 else "square" if h == w else "non-square")] += 1
     flat = [v for pat in sh["data"] for row in pat for v in row]
     bs = batch_sizes if batch_sizes is not None else sorted({1, 2, n, n + 1, max(1, n - 1)}) + [None]
     amax = float(arr.max())
@@ -802,25 +819,29 @@ def shift_case(ctx, drv, sh, batch_sizes=None):
         ctx.mark(("shift", sr, sc, h, w, b, tuple(sh["coord"])))
         ctx.dist["shift:b " + ("None" if b is None else "=1" if b == 1 else ">n" if b > n else "divides" if n % b == 0 else "non-dividing")] += 1
         ctx.dist["shift:coord=" + ("corner" if sh["coord"] == [0, 0] else "other")] += 1
-        om.shift_origin_to(origin_coordinate=(cy, cx), max_batch_size=b)
+        om.shift_origin_to(origin_coordinate=(cy, cx), max_batch_size=b, mode=mode)
         got = om.shifted_tensor.detach().cpu().numpy().reshape(n, h, w).astype(np.float64)
         case = {"stream": "shift", "sh": sh, "b": b}
-        dev = float(np.abs(got - want).max()) / amax
-        ctx.stat_max("shift_vs_roll_rel_dev", dev)
-        if not dev <= 1e-5:
-            i = int(np.argmax(np.abs(got - want).reshape(n, -1).max(1)))
-            ctx.pred_fail("shift-int-not-roll", "shift_origin_to with an integer fitted origin is not the circular roll of the pattern", case,
-                          observed={"pattern": i, "origin": sh["origins"][i], "shifted": got[i].tolist()}, required={"roll": want[i].tolist()})
-        m = drv.ask({"op": "shift", "h": h, "w": w, "b": n if b is None else b, "data": flat, "coord": [cy, cx], "origins": sh["origins"]})
+        if want is not None:
+            dev = float(np.abs(np.nan_to_num(got - want, nan=np.inf)).max()) / amax
+            ctx.stat_max("shift_vs_roll_rel_dev", dev if np.isfinite(dev) else 1e30)
+            if not dev <= 1e-5:
+                i = int(np.argmax(np.abs(np.nan_to_num(got - want, nan=np.inf)).reshape(n, -1).max(1)))
+                ctx.pred_fail("shift-int-not-roll", f"shift_origin_to(mode='{mode}') with an integer fitted origin is not the circular roll of the pattern", case,
+                              observed={"pattern": i, "origin": sh["origins"][i], "shifted": got[i].tolist()}, required={"roll": want[i].tolist()})
+        if mode != "bilinear":
+            continue                        # the model is the bilinear sampler
+        m = drv.ask({"op": "shift", "h": h, "w": w, "b": n if b is None else b, "data": flat, "coord": [cy, cx],
+                     "origins": [[hist_mod.rat(a), hist_mod.rat(c)] for a, c in sh["origins"]]})
         if "ok" not in m:
             raise HarnessError(f"driver error {m}")
         if any(p is None for p in m["ok"]):
             ctx.disagree("shift", case, "model leaves a pattern unassigned", "n/a")
             continue
         mod = np.array([[float(frac_of(v)) for v in p] for p in m["ok"]]).reshape(n, h, w)
-        d = float(np.abs(mod - got).max()) / amax
-        ctx.stat_max("shift_model_vs_impl_rel_dev", d)
-        if d > 1e-5:
+        d = float(np.abs(np.nan_to_num(mod - got, nan=np.inf)).max()) / amax
+        ctx.stat_max("shift_model_vs_impl_rel_dev", d if np.isfinite(d) else 1e30)
+        if not d <= 1e-5:
             ctx.disagree("shift", case, mod.tolist(), got.tolist(), note="shiftOriginTo at Rat vs shifted_tensor")
     ctx.sample({"stream": "shift", "shape": [sr, sc, h, w], "origins": sh["origins"][:3], "coord": sh["coord"]}, limit=5)
 
@@ -849,12 +870,73 @@ def e2e_case(ctx, rng):
 
 # ---------------------------------------------------------------------------------------
 
+SIGNATURES = {
+    "CenterOfMassOriginModel.from_dataset": [["cls", None], ["dataset", None], ["device", "cpu"]],
+    "CenterOfMassOriginModel.calculate_origin": [["self", None], ["max_batch_size", "None"]],
+    "CenterOfMassOriginModel.fit_origin_background": [["self", None], ["probe_positions", "None"], ["fit_method", "plane"]],
+    "CenterOfMassOriginModel.shift_origin_to": [["self", None], ["origin_coordinate", "(0, 0)"], ["max_batch_size", "None"], ["mode", "bilinear"]],
+    "CenterOfMassOriginModel.forward": [["self", None], ["max_batch_size", "None"], ["fit_origin_bkg", "True"], ["probe_positions", "None"], ["fit_method", "plane"],
+                                        ["estimate_detector_orientation", "True"], ["rotation_angles_deg", "None"], ["shift_to_origin", "True"],
+                                        ["origin_coordinate", "(0, 0)"], ["mode", "bilinear"]],
+    "PtychographyDatasetRaster._set_intensities_com": [["self", None], ["intensities", None], ["dp_mask", "None"], ["fit_function", "plane"], ["vectorized_calculation", "True"]],
+    "fit_origin": [["data", None], ["mask", "None"], ["fit_function", "plane"], ["robust", "False"], ["robust_steps", "3"], ["robust_thresh", "2"]],
+    "_plane": [["xy", None], ["mx", None], ["my", None], ["b", None]],
+    "_parabola": [["xy", None], ["c0", None], ["cx1", None], ["cx2", None], ["cy1", None], ["cy2", None], ["cxy", None]],
+    "_bezier_two": [["xy", None], ["c00", None], ["c01", None], ["c02", None], ["c10", None], ["c11", None], ["c12", None], ["c20", None], ["c21", None], ["c22", None]],
+}
+PREPROCESS_COM_DEFAULTS = {"com_fit_function": "plane", "vectorized": "True"}
+
+
+def signature_tie(ctx):
+    """parameter order and defaults of the anchored entry points (the model's argument order / `None is num_dps` / default
+    target (0, 0) / default fit "plane" are read off these)"""
+    import inspect
+    from quantem.diffractive_imaging import ptycho_utils as pu
+    from quantem.diffractive_imaging.dataset_models import PtychographyDatasetRaster
+    from quantem.diffractive_imaging.origin_models import CenterOfMassOriginModel
+
+    def sig(f):
+        return [[k, None if v.default is inspect.Parameter.empty else str(v.default)] for k, v in inspect.signature(f).parameters.items()]
+    got = {}
+    for name in SIGNATURES:
+        try:
+            if name.startswith("CenterOfMassOriginModel."):
+                f = getattr(CenterOfMassOriginModel, name.split(".")[1])
+                got[name] = ([["cls", None]] if name.endswith("from_dataset") else []) + sig(f)
+            elif name.startswith("PtychographyDatasetRaster."):
+                got[name] = sig(getattr(PtychographyDatasetRaster, name.split(".")[1]))
+            else:
+                got[name] = sig(getattr(pu, name))
+        except Exception as e:  # noqa
+            got[name] = f"{type(e).__name__}: {e}"
+    ctx.count()
+    if got != SIGNATURES:
+        ctx.disagree("signatures", {"stream": "signatures"}, SIGNATURES, got, note="parameter order / defaults of the anchored functions")
+    try:
+        pp = inspect.signature(PtychographyDatasetRaster.preprocess).parameters
+        gotp = {k: str(pp[k].default) for k in PREPROCESS_COM_DEFAULTS}
+    except Exception as e:  # noqa
+        gotp = f"{type(e).__name__}: {e}"
+    if gotp != PREPROCESS_COM_DEFAULTS:
+        ctx.disagree("signatures", {"stream": "signatures"}, PREPROCESS_COM_DEFAULTS, gotp, note="preprocess(): centre-of-mass options")
+
+
 def run(ctx):
     import torch
     from qv.driver import Driver
     torch.set_num_threads(min(4, torch.get_num_threads()))
     drv = Driver("C18")
     try:
+        signature_tie(ctx)
+        guarded(ctx, hist_mod.forward_partial_case, {"stream": "forward_partial"}, ctx, drv)
+        rng = ctx.rng.fork(11)
+        for _ in range(ctx.n(220, 1500)):
+            hs = hist_mod.gen_omhist(rng)
+            guarded(ctx, hist_mod.omhist_case, {"stream": "omhist", "hist": hs}, ctx, drv, hs)
+        rng = ctx.rng.fork(12)
+        for _ in range(ctx.n(110, 800)):
+            hs = hist_mod.gen_dshist(rng)
+            guarded(ctx, hist_mod.dshist_case, {"stream": "dshist", "hist": hs}, ctx, drv, hs)
         rng = ctx.rng.fork(1)
         for _ in range(ctx.n(300, 2000)):
             ds = gen_dataset(rng)
@@ -906,6 +988,14 @@ def replay(ctx, rep):
             forms_case(ctx, drv, case["fm"])
         elif st == "shift":
             shift_case(ctx, drv, case["sh"], batch_sizes=[case["b"]] if "b" in case else None)
+        elif st == "omhist":
+            hist_mod.omhist_case(ctx, drv, case["hist"])
+        elif st == "dshist":
+            hist_mod.dshist_case(ctx, drv, case["hist"])
+        elif st == "forward_partial":
+            hist_mod.forward_partial_case(ctx, drv)
+        elif st == "signatures":
+            signature_tie(ctx)
         elif st == "e2e":
             from qv.prng import Rng
             for s in range(50):
